@@ -435,6 +435,11 @@ def _param_fresh_at_callers(fr: Fresh, fid: FuncId, pname: str) -> Tuple[bool, s
                 sites.append((cf, cmi, cfn, cci, c))
     if not sites:
         return False, f"no caller of {fid.qual} found"
+    outside = sorted({cmi.rel for cf, cmi, cfn, cci, c in sites if cmi.rel.startswith("scripts/")})
+    if outside:
+        # an entry point of the library: the command-line scripts call it, and so does every other user of the API
+        return False, (f"{fid.qual} is an entry point of the library (called from {outside[0]}): its callers are not all in view, "
+                       f"the object belongs to whoever calls it")
     for cf, cmi, cfn, cci, c in sites:
         drop = ci is not None and not any(unparse(d) == "staticmethod" for d in fn.decorator_list)
         try:
